@@ -151,6 +151,8 @@ class Ref:
         Returns (runs list of names, outcome 'ok'|'exc', value)."""
         runs = []
         failed = [False]
+        stack = []
+        self.last_attempted = []      # tasks whose computation had started when the failure struck (call stack)
 
         def need(n):
             o = self.obj(k, n)
@@ -162,6 +164,7 @@ class Ref:
                 self.mem[o] = self.stored[loc][0]
                 return self.mem[o]
             # compute: inputs first (in declaration order), then run
+            stack.append(n)
             for i in self.inputs(k, n):
                 need(i)
                 if failed[0]:
@@ -172,7 +175,9 @@ class Ref:
             self.run_count[cnt_key] = self.run_count.get(cnt_key, 0) + 1
             if fail is not None and info['slug'] == fail and not failed[0]:
                 failed[0] = True
+                self.last_attempted = list(stack)
                 return None
+            stack.pop()
             if self.persists(k, n):
                 self.stored[loc] = (info['value'], self.run_count[cnt_key])
             self.mem[o] = info['value']
